@@ -64,7 +64,8 @@ func (e *Engine) Extra() map[string]any {
 	return map[string]any{"registered_message_types": len(e.ctors), "message_types_generated_by_this_worker": len(e.used)}
 }
 
-var strPieces = []string{"", "a", "x y", "\r\n\r\n", "Content-Length: 5\r\n\r\n{}", "\"", "\\", "é", "世界", "😀", "\u0000", "<&>", "\n", "\r", " ", "/path/to/file.wa", "0"}
+var strPieces = []string{"", "a", "x y", "\r\n\r\n", "Content-Length: 5\r\n\r\n{}", "\"", "\\", "é", "世界", "😀", "\u0000", "<&>", "\n", "\r", " ", "/path/to/file.wa", "0",
+	"\u2028", "\u2029", "\u007f", "\u0080", "\U0010FFFF", "\uFFFD", "\t", "\b\f", "</script>", "\\u0041", "{\"a\":1}", "Content-Length: 0\r\n\r\n"}
 
 func genString(t *tape.Tape) string {
 	n := t.Pick(3, 4, 2, 1)
@@ -75,6 +76,12 @@ func genString(t *tape.Tape) string {
 	if n == 3 && t.Draw(4) == 3 {
 		for i := t.Range(50, 400); i > 0; i-- {
 			s += string(rune('a' + i%26))
+		}
+		if t.Draw(6) == 5 {
+			// longer than the reader's buffer, non-ASCII inside
+			for i := t.Range(3000, 6000); i > 0; i-- {
+				s += string(rune(0x4e00 + i%64))
+			}
 		}
 	}
 	return s
